@@ -1,5 +1,227 @@
 package main
 
+import (
+	"fmt"
+	"go/ast"
+	"go/parser"
+	"go/token"
+	"os"
+	"path/filepath"
+	"sort"
+	"strings"
+)
+
 // genAll runs the remaining extractions (added per property as the models grow).
 func genAll() {
+	factPackageState()
+	factTerminalOpsClose()
+}
+
+// libraryPackages are the directories of tabula's non-test library code.
+var libraryPackages = []string{".", "contentstream", "core", "docx", "epubdoc", "font", "format", "graphicsstate",
+	"htmldoc", "internal/filters", "layout", "model", "odt", "pages", "pptx", "rag", "reader", "resolver", "tables", "text", "xlsx"}
+
+func parseDir(rel string) map[string]*ast.File {
+	out := map[string]*ast.File{}
+	dir := filepath.Join(repo, rel)
+	ents, err := os.ReadDir(dir)
+	if err != nil {
+		fatal("read %s: %v", rel, err)
+	}
+	for _, e := range ents {
+		n := e.Name()
+		if e.IsDir() || !strings.HasSuffix(n, ".go") || strings.HasSuffix(n, "_test.go") {
+			continue
+		}
+		f, err := parser.ParseFile(fset, filepath.Join(dir, n), nil, parser.ParseComments)
+		if err != nil {
+			fatal("parse %s/%s: %v", rel, n, err)
+		}
+		// hook files (build tag verif) are not part of the library proper
+		skip := false
+		for _, cg := range f.Comments {
+			if cg.Pos() < f.Package && strings.Contains(cg.Text(), "go:build verif") {
+				skip = true
+			}
+		}
+		if !skip {
+			out[n] = f
+		}
+	}
+	return out
+}
+
+// rootIdent returns the identifier at the root of x, x.f, x[i], *x, x.f[i].g ...
+func rootIdent(e ast.Expr) *ast.Ident {
+	for {
+		switch v := e.(type) {
+		case *ast.Ident:
+			return v
+		case *ast.SelectorExpr:
+			e = v.X
+		case *ast.IndexExpr:
+			e = v.X
+		case *ast.StarExpr:
+			e = v.X
+		case *ast.ParenExpr:
+			e = v.X
+		default:
+			return nil
+		}
+	}
+}
+
+// factPackageState: in the library packages no package-level variable is written
+// outside init (assignment, ++/--, element/field assignment, delete, or taking its
+// address), and there is no `go` statement: the result of an extraction cannot depend
+// on earlier calls or on other goroutines through package state.
+func factPackageState() {
+	var writes, gos []string
+	for _, pkg := range libraryPackages {
+		files := parseDir(pkg)
+		pkgVars := map[string]bool{}
+		for _, f := range files {
+			for _, d := range f.Decls {
+				if gd, ok := d.(*ast.GenDecl); ok && gd.Tok == token.VAR {
+					for _, s := range gd.Specs {
+						for _, n := range s.(*ast.ValueSpec).Names {
+							if n.Name != "_" {
+								pkgVars[n.Name] = true
+							}
+						}
+					}
+				}
+			}
+		}
+		isPkgVar := func(id *ast.Ident) bool {
+			if id == nil || !pkgVars[id.Name] {
+				return false
+			}
+			if id.Obj == nil {
+				return true // unresolved within the file: a package-level name from another file
+			}
+			if vs, ok := id.Obj.Decl.(*ast.ValueSpec); ok {
+				// resolved to a declaration: package level iff it is not inside a function
+				return declIsTopLevel(files, vs)
+			}
+			return false
+		}
+		names := make([]string, 0, len(files))
+		for n := range files {
+			names = append(names, n)
+		}
+		sort.Strings(names)
+		for _, fname := range names {
+			f := files[fname]
+			for _, d := range f.Decls {
+				fd, ok := d.(*ast.FuncDecl)
+				if !ok || fd.Body == nil || (fd.Name.Name == "init" && fd.Recv == nil) {
+					continue
+				}
+				where := func(p token.Pos) string {
+					return fmt.Sprintf("%s/%s:%d %s", pkg, fname, fset.Position(p).Line, fd.Name.Name)
+				}
+				ast.Inspect(fd.Body, func(n ast.Node) bool {
+					switch v := n.(type) {
+					case *ast.GoStmt:
+						gos = append(gos, where(v.Pos()))
+					case *ast.AssignStmt:
+						if v.Tok == token.DEFINE {
+							return true
+						}
+						for _, lhs := range v.Lhs {
+							if id := rootIdent(lhs); isPkgVar(id) {
+								writes = append(writes, where(lhs.Pos())+" writes "+id.Name)
+							}
+						}
+					case *ast.IncDecStmt:
+						if id := rootIdent(v.X); isPkgVar(id) {
+							writes = append(writes, where(v.Pos())+" writes "+id.Name)
+						}
+					case *ast.UnaryExpr:
+						if v.Op == token.AND {
+							if id := rootIdent(v.X); isPkgVar(id) {
+								writes = append(writes, where(v.Pos())+" takes the address of "+id.Name)
+							}
+						}
+					case *ast.CallExpr:
+						if fn, ok := v.Fun.(*ast.Ident); ok && (fn.Name == "delete" || fn.Name == "clear") && len(v.Args) > 0 {
+							if id := rootIdent(v.Args[0]); isPkgVar(id) {
+								writes = append(writes, where(v.Pos())+" "+fn.Name+"s from "+id.Name)
+							}
+						}
+					}
+					return true
+				})
+			}
+		}
+	}
+	facts["no-package-state-writes"] = Fact{OK: len(writes) == 0, Detail: detail(writes, "no package-level variable is written outside init in "+fmt.Sprint(len(libraryPackages))+" library packages")}
+	facts["no-go-statements"] = Fact{OK: len(gos) == 0, Detail: detail(gos, "no go statement in library code")}
+}
+
+func detail(bad []string, good string) string {
+	if len(bad) == 0 {
+		return good
+	}
+	if len(bad) > 6 {
+		bad = append(bad[:6], fmt.Sprintf("… and %d more", len(bad)-6))
+	}
+	return strings.Join(bad, "; ")
+}
+
+func declIsTopLevel(files map[string]*ast.File, vs *ast.ValueSpec) bool {
+	for _, f := range files {
+		for _, d := range f.Decls {
+			if gd, ok := d.(*ast.GenDecl); ok {
+				for _, s := range gd.Specs {
+					if s == ast.Spec(vs) {
+						return true
+					}
+				}
+			}
+		}
+	}
+	return false
+}
+
+// factTerminalOpsClose: every method of tabula.Extractor that opens the reader
+// (ensureReader / ensurePDFReader) and is documented as a terminal operation releases it
+// with `defer e.Close()` right after; the non-terminal ones are exactly PageCount,
+// IsCharacterLevel and IsMultiColumn.
+func factTerminalOpsClose() {
+	f := parseFile("extractor.go")
+	nonTerminal := map[string]bool{"PageCount": true, "IsCharacterLevel": true, "IsMultiColumn": true, "ensurePDFReader": true}
+	var bad, terminal []string
+	for _, d := range f.Decls {
+		fd, ok := d.(*ast.FuncDecl)
+		if !ok || fd.Recv == nil || fd.Body == nil {
+			continue
+		}
+		opens, closes := false, false
+		ast.Inspect(fd.Body, func(n ast.Node) bool {
+			switch v := n.(type) {
+			case *ast.CallExpr:
+				if se, ok := v.Fun.(*ast.SelectorExpr); ok && (se.Sel.Name == "ensureReader" || se.Sel.Name == "ensurePDFReader") {
+					opens = true
+				}
+			case *ast.DeferStmt:
+				if se, ok := v.Call.Fun.(*ast.SelectorExpr); ok && se.Sel.Name == "Close" {
+					if id, ok := se.X.(*ast.Ident); ok && id.Name == "e" {
+						closes = true
+					}
+				}
+			}
+			return true
+		})
+		if !opens || nonTerminal[fd.Name.Name] {
+			continue
+		}
+		terminal = append(terminal, fd.Name.Name)
+		if !closes {
+			bad = append(bad, fd.Name.Name+" opens the reader without `defer e.Close()`")
+		}
+	}
+	sort.Strings(terminal)
+	facts["terminal-ops-close"] = Fact{OK: len(bad) == 0 && len(terminal) >= 10, Detail: detail(bad, fmt.Sprintf("%d terminal operations defer e.Close(): %s", len(terminal), strings.Join(terminal, ",")))}
 }
